@@ -9,11 +9,14 @@ for d in sorted(glob.glob('/verif/seeded/*')):
     name = os.path.basename(d)
     checks = m.get('checks', {})
     res = []
-    for cid, r in checks.items():
+    own = m.get('property', name.split('-')[0])
+    for cid, r in sorted(checks.items(), key=lambda kv: kv[0] != own):
+        tag = cid if cid == own else f"(also {cid}"
+        end = "" if cid == own else ")"
         if r.get('caught'):
-            res.append(f"{cid}: caught ({', '.join(sorted(set(r.get('classes', [])))[:3])})")
-        else:
-            res.append(f"{cid}: missed")
+            res.append(f"{tag}: caught ({', '.join(sorted(set(r.get('classes', [])))[:3])}){end}")
+        elif cid == own:
+            res.append(f"{tag}: MISSED")
     title = m.get('title', '').replace('|', '/')
     needs = (m.get('needs_to_manifest', '') or '').replace('|', '/').replace('\n', ' ')
     if len(needs) > 160: needs = needs[:157] + '...'
